@@ -203,6 +203,30 @@ func c15Concurrent(r *mon.Run, k int) error {
 	// credits are still checked against their revisions
 	c.cur = &c15Step{Op: fmt.Sprintf("concurrent x%d", k)}
 	c.steps = []c15Step{*c.cur}
+	// every successful debit is followed by its service call in the same RPC,
+	// and no service call happens without one
+	paidAt := map[uint64]bool{}
+	servedAt := map[uint64]bool{}
+	for _, ev := range c.lab.Log.Since(c.aud.seq) {
+		switch ev.Kind {
+		case rhplab.EvDebit:
+			if ev.Err == "" {
+				paidAt[ev.Stream] = true
+			}
+		case rhplab.EvReadSector, rhplab.EvStoreSector:
+			servedAt[ev.Stream] = true
+			if !paidAt[ev.Stream] {
+				c.report("service-before-payment:"+ev.Kind, "a sector was read or stored without a preceding successful debit in the same RPC (concurrent)", nil)
+			}
+		}
+	}
+	for id := range paidAt {
+		if !servedAt[id] {
+			c.report("paid-but-not-served:concurrent", "an account was debited but the sector operation was not carried out in that RPC (concurrent)", nil)
+			break
+		}
+	}
+	r.Count("concurrent_debit_service_pairs", len(servedAt))
 	c.aud.audit()
 	for _, part := range bankModel.Partition(history) {
 		m := bankModel
